@@ -9,11 +9,19 @@ import ImathVerif.Model.BufferProtocol
 Theorems about the hand model `Model/FixedArray.lean` (+ `FixedArray2D`, `StringTable`,
 `BufferProtocol`), which is tied to `/repo` by the correspondence run of `tools/props/c19.py`.
 
-The model is parametrised by `Cfg`.  `Cfg.asWritten` mirrors the code as it is; `Cfg.repaired`
-is the evidently intended behaviour.  Theorems that hold only for the repaired variant are stated
-for it at full strength, and the NEGATION is proved for the as-written variant on a concrete
-witness program (`Model/FixedArrayWitness.lean`), which the check replays against the real module.
-Which variant the current tree is, is decided by the correspondence run.
+The model is parametrised by `Cfg` / `BufCfg`; WHICH variant the current tree is, is decided on every
+run by replaying the witness programs of `Model/FixedArrayWitness.lean` on the real module and then
+confirmed line by line on the exhaustive streams.  The current tree is `Cfg.current` / `BufCfg.repaired`
+(the model's defaults), and the PRIMARY theorems below are the full-strength statements about it:
+`readonly_invariant_current`, `slice_any_sign`, `getslice_total`, `ifelse_refines`, `convert_refines`,
+`buffer_len_is_shape_times_itemsize`, `from_buffer_exact`, ...
+
+The last section, "Former defects", keeps — as documentation and as regression witnesses — the kernel-checked
+refutations of the same statements for `Cfg.asWritten` / `BufCfg.asWritten` (the tree as first examined:
+missing `throw` in `WritableMaskedAccess`, converting constructor, `s < 0` slice test, non-const read in
+`ifelse`, `numBytes`, unchecked `...FromBuffer`).  One deviation from list semantics is still present in the
+current code and is a recorded known finding: `setitem_scalar_mask` on a masked reference ignores the mask
+(`setitem_scalar_mask_on_masked_ignores_mask`).
 -/
 namespace ImathVerif.C19
 open ImathVerif.FixedArray
@@ -220,35 +228,19 @@ theorem readonly_invariant (cfg : Cfg) (hc : cfg.maskedAccessThrows = true) :
     obtain ⟨h4, h5⟩ := ih (step cfg s op).1 b (by omega) h2
     exact ⟨by simp only [exec]; rw [h4, h1], by simpa only [exec] using h5⟩
 
-/-- non-vacuity: the witness set-up state has buffer 0 protected -/
-example : Protected (exec Cfg.repaired State.empty witnessSetup) 0 ∧
-    0 < (exec Cfg.repaired State.empty witnessSetup).heap.length := by decide
+/-- **Read-only invariant of the code as it is now** — no hypothesis left: for every program of every length,
+    a buffer all of whose views are read-only keeps its contents and stays protected. -/
+theorem readonly_invariant_current (ops : List Op) (s : State) (b : Nat) (hb : b < s.heap.length)
+    (hp : Protected s b) :
+    (exec Cfg.current s ops).heap[b]? = s.heap[b]? ∧ Protected (exec Cfg.current s ops) b :=
+  readonly_invariant Cfg.current rfl ops s b hb hp
 
-/-- **The invariant is FALSE for the code as written**: in the state reached by
-    `a = IntArray([10,11,12]); a.makeReadOnly(); m = IntArray([1,0,1]); v = a[m]`
-    buffer 0 is protected, and `v += 5` changes it. -/
-theorem readonly_invariant_asWritten_false :
-    ¬ (∀ (ops : List Op) (s : State) (b : Nat), b < s.heap.length → Protected s b →
-        (exec Cfg.asWritten s ops).heap[b]? = s.heap[b]?) := by
-  intro h
-  have := h witnessMaskedInplaceScalar (exec Cfg.asWritten State.empty witnessSetup) 0 (by decide) (by decide)
-  revert this
-  decide
-
-/-- same through the array right-hand side path (`VectorizedVoidMaskableMemberFunction1`) -/
-theorem readonly_invariant_asWritten_false_vector :
-    (exec Cfg.asWritten State.empty (witnessSetup ++ witnessMaskedInplaceVector)).heap[0]? = some [17, 11, 20] ∧
-    (exec Cfg.repaired State.empty (witnessSetup ++ witnessMaskedInplaceVector)).heap[0]? = some [10, 11, 12] := by
-  decide
-
-/-- what the as-written model does on the witness, line by line (replayed against the real module) -/
-theorem witness_masked_inplace_trace :
-    (run Cfg.asWritten State.empty (witnessSetup ++ witnessMaskedInplaceScalar)).2
-      = [.ok (.newView 0), .ok .none, .ok (.newView 1), .ok (.newView 2), .ok .none] ∧
-    (exec Cfg.asWritten State.empty (witnessSetup ++ witnessMaskedInplaceScalar)).heap[0]? = some [15, 11, 17] ∧
-    (run Cfg.repaired State.empty (witnessSetup ++ witnessMaskedInplaceScalar)).2
-      = [.ok (.newView 0), .ok .none, .ok (.newView 1), .ok (.newView 2), .error .readOnly] := by
-  decide
+/-- non-vacuity: the witness set-up state has buffer 0 protected, and `v += 5` through the masked reference of
+    the read-only array raises and leaves it alone -/
+example : Protected (exec Cfg.current State.empty witnessSetup) 0 ∧
+    0 < (exec Cfg.current State.empty witnessSetup).heap.length ∧
+    (run Cfg.current State.empty (witnessSetup ++ witnessMaskedInplaceScalar)).2.getLast? = some (.error .readOnly) ∧
+    (exec Cfg.current State.empty (witnessSetup ++ witnessMaskedInplaceScalar)).heap[0]? = some [10, 11, 12] := by decide
 
 /-- Statement level: a mutating statement whose target is read-only raises and changes nothing
     (neither the heap nor any object), in the repaired variant. -/
@@ -309,6 +301,12 @@ theorem readonly_step_raises (cfg : Cfg) (hc : cfg.maskedAccessThrows = true) (s
     · exact ⟨rfl, _, rfl⟩
     · exact ⟨rfl, _, rfl⟩
   | _ => simp [Op.target] at ht
+
+/-- current code: any mutating statement through a read-only array or view raises and changes nothing -/
+theorem readonly_step_raises_current (s : State) (op : Op) (v : Nat) (a : View)
+    (ht : Op.target op = some v) (ha : s.env[v]? = some a) (hw : a.writable = false) :
+    (step Cfg.current s op).1 = s ∧ ∃ e, (step Cfg.current s op).2 = .error e :=
+  readonly_step_raises Cfg.current rfl s op v a ht ha hw
 
 /-- the error raised by the element / slice / mask assignments is the read-only one -/
 theorem setitem_readonly_error (h : Heap) (v m d : View) (idx : PyIdx) (x : Int) (hw : v.writable = false) :
@@ -402,46 +400,32 @@ theorem slice_indices_in_bounds {n : Nat} (hn : (n : Int) ≤ PY_SSIZE_T_MAX) {i
     (h : extractSliceIndices n idx = .ok s) (i : Nat) (hi : i < s.slicelength) : s.at i < n :=
   slice_at_lt' hn h i hi
 
-/-- FULL-STRENGTH CLAIM "every slice with step ≠ 0 is accepted" — what `extract_slice_indices` does instead:
-    forward slices always; backward slices unless the normalised start is -1. -/
-theorem slice_accepted_forward {n : Nat} (hn : (n : Int) ≤ PY_SSIZE_T_MAX) {a b c : Option Int}
-    (hpos : 0 < c.getD 1) : ∃ s, extractSliceIndices n (.slice a b c) = .ok s :=
-  extract_slice_forward_ok hn hpos
-
-theorem slice_rejected_only_if {n : Nat} (hn : (n : Int) ≤ PY_SSIZE_T_MAX) {a b c : Option Int}
-    (hc : ∀ v, c = some v → -PY_SSIZE_T_MAX ≤ v) {e : Err}
-    (h : extractSliceIndices n (.slice a b c) = .error e) :
-    (c = some 0 ∧ e = .stepZero) ∨
-    (e = .domainError ∧ c.getD 1 < 0 ∧ PyList.boundDown n a ((n : Int) - 1) = -1) :=
-  extract_slice_error hn hc h
-
-/-- **The full-strength slice claim is FALSE for the code as it is**: `a[::-1]` on an empty array, and
-    `a[-7::-2]` on a 5-element array, are `[]` in Python and raise (`std::domain_error`) here.
-    (The `s < 0` test of `extract_slice_indices` rejects the legal start `-1` of an empty backward slice.) -/
-theorem slice_any_sign_false :
-    ¬ (∀ (n : Nat) (a b c : Option Int), c ≠ some 0 → (n : Int) ≤ PY_SSIZE_T_MAX →
-        ∃ s, extractSliceIndices n (.slice a b c) = .ok s) := by
-  intro h
-  obtain ⟨s, hs⟩ := h 0 none none (some (-1)) (by decide) (by decide)
-  have hw : extractSliceIndices 0 (.slice none none (some (-1))) = .error .domainError := by decide
-  rw [hw] at hs
-  cases hs
-
-/-- REPAIRED start test: the full-strength slice claim holds — every slice with a non-zero step, all signs,
-    every length, is accepted and selects exactly the language-reference indices, all inside the array -/
-theorem slice_any_sign_repaired {n : Nat} (hn : (n : Int) ≤ PY_SSIZE_T_MAX) {a b c : Option Int}
+/-- **Every slice with a non-zero step — all signs of start/stop/step, every length — is accepted by the
+    current `extract_slice_indices`, selects exactly the indices of the language reference, and every index
+    is inside the array.** -/
+theorem slice_any_sign {n : Nat} (hn : (n : Int) ≤ PY_SSIZE_T_MAX) {a b c : Option Int}
     (hc0 : c ≠ some 0) (hc : ∀ v, c = some v → -PY_SSIZE_T_MAX ≤ v) :
-    ∃ s, extractSliceIndices n (.slice a b c) (-1) (-1) = .ok s ∧
+    ∃ s, extractSliceIndices n (.slice a b c) = .ok s ∧
       PyList.sliceIndices n a b c = some ((List.range s.slicelength).map s.at) ∧
       ∀ i, i < s.slicelength → s.at i < n := by
   obtain ⟨s, hs⟩ := extract_slice_total_repaired hn hc0 hc
   exact ⟨s, hs, extract_slice_spec hn hc hs, fun i hi => slice_at_lt' hn hs i hi⟩
 
-theorem slice_any_sign_witnesses :
-    extractSliceIndices 0 (.slice none none (some (-1))) = .error .domainError ∧
-    PyList.sliceIndices 0 none none (some (-1)) = some [] ∧
-    extractSliceIndices 5 (.slice (some (-7)) none (some (-2))) = .error .domainError ∧
-    PyList.sliceIndices 5 (some (-7)) none (some (-2)) = some [] := by decide
+/-- the start test written in the current code, `(sl > 0 && s < 0)`, and the model's `s < -1` never fire -/
+theorem current_start_test {n : Nat} (hn : (n : Int) ≤ PY_SSIZE_T_MAX) {a b c : Option Int}
+    (hc : ∀ v, c = some v → -PY_SSIZE_T_MAX ≤ v) {sa so st : Int} (hu : sliceUnpack a b c = .ok (sa, so, st)) :
+    ¬ ((sliceAdjust n sa so st).1 < -1) ∧
+    ¬ (0 < (sliceAdjust n sa so st).2.2 ∧ (sliceAdjust n sa so st).1 < 0) := current_start_test_equiv hn hc hu
+
+/-- **`a[start:stop:step]` never fails for a non-zero step** and is the list's slice -/
+theorem getslice_total {h : Heap} {v : View} (w : v.WF (shape h)) {a b c : Option Int}
+    (hc0 : c ≠ some 0) (hc : ∀ x, c = some x → -PY_SSIZE_T_MAX ≤ x) :
+    ∃ h' f, getslice h v (.slice a b c) = .ok (h', f) ∧
+      PyList.getslice (v.toList h) a b c = some (f.toList h') ∧ f.WF (shape h') ∧ f.writable = true := by
+  obtain ⟨s, hs, _⟩ := slice_any_sign w.lenOk (a := a) (b := b) hc0 hc
+  obtain ⟨⟨h', f⟩, hr⟩ := getslice_ok w hs
+  have := FixedArray.getslice_refines w hc hr
+  exact ⟨h', f, hr, this.1, this.2.1, this.2.2.1⟩
 
 theorem getitem_refines {h : Heap} {v : View} (w : v.WF (shape h)) (i : Int) :
     getitem h v i = (match PyList.getitem (v.toList h) i with
@@ -507,17 +491,8 @@ theorem setitem_vector_mask_refines {h : Heap} {v mask data : View} (w : v.WF (s
   setitemVectorMask_same_refines w wm wd hw hun hnm hnd hlen hdl
 
 theorem ifelse_refines {h : Heap} {v choice other : View} (w : v.WF (shape h)) (wc : choice.WF (shape h))
-    (wo : other.WF (shape h)) (hw : v.writable = true) (hl1 : choice.length = v.length)
-    (hl2 : other.length = v.length) :
-    ∃ h' f, ifelseVector h v choice other = .ok (h', f) ∧
-      f.toList h' = PyList.ifelse (choice.toList h) (v.toList h) (other.toList h) ∧
-      f.WF (shape h') ∧ f.buf = h.length ∧ (∃ vals, h' = h ++ [vals]) :=
-  ifelseVector_refines w wc wo (Or.inr hw) hl1 hl2
-
-/-- repaired `ifelse` (const read): no writability needed — read-only sources work like lists -/
-theorem ifelse_refines_repaired {h : Heap} {v choice other : View} (w : v.WF (shape h)) (wc : choice.WF (shape h))
     (wo : other.WF (shape h)) (hl1 : choice.length = v.length) (hl2 : other.length = v.length) :
-    ∃ h' f, ifelseVector h v choice other true = .ok (h', f) ∧
+    ∃ h' f, ifelseVector h v choice other = .ok (h', f) ∧
       f.toList h' = PyList.ifelse (choice.toList h) (v.toList h) (other.toList h) ∧
       f.WF (shape h') ∧ f.buf = h.length ∧ (∃ vals, h' = h ++ [vals]) :=
   ifelseVector_refines w wc wo (Or.inl rfl) hl1 hl2
@@ -625,43 +600,24 @@ theorem error_leaves_state (cfg : Cfg) (s : State) (op : Op) (e : Err) (h : (ste
       | error e' => simp
       | ok mk => simp only [hv, hm] at h ⊢; exact wh _ h
 
-/-! ### deviations of the code as it is from list semantics (model witnesses, replayed on the real module) -/
-
-/-- `ifelse` on a READ-ONLY array raises as soon as `choice` selects one of its elements: the loop body uses
-    the non-const `(*this)[i]`.  (Python-list semantics: reading never fails.) -/
-theorem ifelse_readonly_quirk :
-    (run Cfg.asWritten State.empty witnessIfelseReadOnly).2.getLast? = some (.error .readOnly) ∧
-    (run Cfg.asWritten State.empty [.alloc [1, 2], .makeReadOnly 0, .alloc [0, 0], .ifelseScalar 0 1 9]).2.getLast?
-      = some (.ok (.newView 2)) ∧
-    (run Cfg.repaired State.empty witnessIfelseReadOnly).2.getLast? = some (.ok (.newView 2)) := by decide
-
-/-- `m[mask2] = x` on a masked reference `m` ignores `mask2` altogether (every referenced element is set) -/
-theorem setitem_scalar_mask_on_masked_ignores_mask :
-    (exec Cfg.asWritten State.empty witnessMaskOnMasked).heap[0]? = some [7, 7, 12] ∧
-    (exec Cfg.repaired State.empty witnessMaskOnMasked).heap[0]? = some [7, 11, 12] := by decide
-
-/-- `IntArray(0)[::-1]`: raises as written, an empty array in the repaired variant (and in Python) -/
-theorem slice_empty_backward_witness :
-    (run Cfg.asWritten State.empty witnessEmptyBackward).2.getLast? = some (.error .domainError) ∧
-    (run Cfg.repaired State.empty witnessEmptyBackward).2.getLast? = some (.ok (.newView 1)) := by decide
-
 /-! ## Converting constructor -/
 
-/-- as written, `FloatArray(a[mask])` carries the source's raw indices over a dense copy: element 0 of the
-    result addresses cell 1 of a 1-cell buffer — an out-of-bounds read; repaired: a dense copy. -/
-theorem convert_masked_oob_asWritten :
-    (run Cfg.asWritten State.empty witnessConvert).2.getLast? = some (.error .oob) ∧
-    (run Cfg.repaired State.empty witnessConvert).2.getLast? = some (.ok (.int 11)) := by decide
-
-/-- repaired converting constructor: a well-formed dense copy of exactly the source's elements -/
-theorem convert_repaired_refines {cfg : Cfg} (hc : cfg.convertDense = true) {h : Heap} {v : View}
-    (w : v.WF (shape h)) :
-    ∃ h' f, convert cfg h v = .ok (h', f) ∧ f.toList h' = v.toList h ∧ f.WF (shape h') ∧ f.buf = h.length := by
+/-- `FloatArray(a)` / `V3dArray(a)` ...: a well-formed DENSE copy of exactly the source's elements, also when the
+    source is a masked reference -/
+theorem convert_refines {h : Heap} {v : View} (w : v.WF (shape h)) :
+    ∃ h' f, convert Cfg.current h v = .ok (h', f) ∧ f.toList h' = v.toList h ∧ f.WF (shape h') ∧ f.buf = h.length := by
   have hA := alloc_WF h (v.toList h) (by rw [View.toList_length]; exact w.lenOk)
   refine ⟨_, _, ?_, hA.2, hA.1, rfl⟩
   unfold convert
-  simp [w.readAll, hc]
+  simp [w.readAll, Cfg.current]
 
+/-! ## Known deviation still present in the current code (recorded finding) -/
+
+/-- `m[mask2] = x` on a masked reference `m` ignores `mask2` altogether (every referenced element is set);
+    honouring the mask (`Cfg.repaired`) would give list semantics -/
+theorem setitem_scalar_mask_on_masked_ignores_mask :
+    (exec Cfg.current State.empty witnessMaskOnMasked).heap[0]? = some [7, 7, 12] ∧
+    (exec Cfg.repaired State.empty witnessMaskOnMasked).heap[0]? = some [7, 11, 12] := by decide
 
 /-! ## FixedArray2D / FixedMatrix against nested lists -/
 open ImathVerif.FixedArray2D
@@ -745,33 +701,14 @@ theorem string_array_create_repr (s : String) (n : Nat) :
 /-! ## Buffer protocol -/
 open ImathVerif.BufferProtocol
 
-/-- repaired `numBytes`: `len = product(shape) x itemsize`, for every element type, length and stride -/
-theorem buffer_len_repaired (t : ElemTy) (length stride : Nat) :
+/-- **`len = product(shape) x itemsize`**, for every element type, length and stride (current `numBytes`) -/
+theorem buffer_len_is_shape_times_itemsize (t : ElemTy) (length stride : Nat) :
     (getbuffer BufCfg.repaired t length stride).consistent := by
   simp [PyBuffer.consistent, getbuffer, numBytes, BufCfg.repaired]
 
-/-- as written it holds for dense scalar arrays (IntArray, FloatArray, ...) -/
-theorem buffer_len_asWritten_scalar (t : ElemTy) (hd : t.dims = 1) (length : Nat) :
-    (getbuffer BufCfg.asWritten t length 1).consistent := by
-  simp [PyBuffer.consistent, getbuffer, numBytes, BufCfg.asWritten, apiShape, hd, prod]
-
-def v3f : ElemTy := ⟨4, 3, 2, 12, 'f'⟩
-
-/-- ... and is FALSE in general: `memoryview(V3fArray(5))` has shape (5,3), itemsize 4, and `len` 20 -/
-theorem buffer_len_asWritten_false :
-    ¬ (∀ (t : ElemTy) (length stride : Nat), (getbuffer BufCfg.asWritten t length stride).consistent) := by
-  intro h
-  have := h v3f 5 1
-  revert this
-  decide
-
-theorem buffer_len_asWritten_witness :
-    (getbuffer BufCfg.asWritten v3f 5 1).len = 20 ∧ (getbuffer BufCfg.asWritten v3f 5 1).shape = [5, 3] ∧
-    (getbuffer BufCfg.repaired v3f 5 1).len = 60 := by decide
-
-/-- repaired `...ArrayFromBuffer`: accepted sources have the array's own element format and size, and the new
+/-- **`...ArrayFromBuffer`** (current code): accepted sources have the array's own element format and size, and the new
     array holds exactly the source bytes; the copy can never overrun the allocation -/
-theorem from_buffer_repaired (t : ElemTy) (src : Src) (bytes : List Nat)
+theorem from_buffer_exact (t : ElemTy) (src : Src) (bytes : List Nat)
     (h : fromBuffer BufCfg.repaired t src = .ok bytes) :
     bytes = src.bytes ∧ src.format = [t.format] ∧ src.itemsize = t.atomicSize ∧
       bytes.length = src.shape0 * t.sizeofT := by
@@ -791,7 +728,7 @@ theorem from_buffer_repaired (t : ElemTy) (src : Src) (bytes : List Nat)
       · simp [h1, h2] at h
     · simp [h1] at h
 
-theorem from_buffer_repaired_never_oob (t : ElemTy) (src : Src) :
+theorem from_buffer_never_overruns (t : ElemTy) (src : Src) :
     fromBuffer BufCfg.repaired t src ≠ .error .oob := by
   unfold fromBuffer
   simp only [BufCfg.repaired]
@@ -806,6 +743,117 @@ theorem from_buffer_repaired_never_oob (t : ElemTy) (src : Src) :
         · simp [h1, h2, h3]
       · simp [h1, h2]
     · simp [h1]
+
+/-! # Former defects — documentation and regression witnesses
+
+Everything below is about `Cfg.asWritten` / `BufCfg.asWritten`, the tree as first examined.  The full-strength
+statements above were FALSE for it; the refutations are kept (kernel-checked), and the check replays the witness
+programs on the real module on every run: should the real module ever agree with the as-written model again,
+the corresponding flag is decided "as written" and the finding is reported. -/
+
+/-- **The invariant is FALSE for the code as written**: in the state reached by
+    `a = IntArray([10,11,12]); a.makeReadOnly(); m = IntArray([1,0,1]); v = a[m]`
+    buffer 0 is protected, and `v += 5` changes it. -/
+theorem readonly_invariant_asWritten_false :
+    ¬ (∀ (ops : List Op) (s : State) (b : Nat), b < s.heap.length → Protected s b →
+        (exec Cfg.asWritten s ops).heap[b]? = s.heap[b]?) := by
+  intro h
+  have := h witnessMaskedInplaceScalar (exec Cfg.asWritten State.empty witnessSetup) 0 (by decide) (by decide)
+  revert this
+  decide
+
+/-- same through the array right-hand side path (`VectorizedVoidMaskableMemberFunction1`) -/
+theorem readonly_invariant_asWritten_false_vector :
+    (exec Cfg.asWritten State.empty (witnessSetup ++ witnessMaskedInplaceVector)).heap[0]? = some [17, 11, 20] ∧
+    (exec Cfg.repaired State.empty (witnessSetup ++ witnessMaskedInplaceVector)).heap[0]? = some [10, 11, 12] := by
+  decide
+
+/-- what the as-written model does on the witness, line by line (replayed against the real module) -/
+theorem witness_masked_inplace_trace :
+    (run Cfg.asWritten State.empty (witnessSetup ++ witnessMaskedInplaceScalar)).2
+      = [.ok (.newView 0), .ok .none, .ok (.newView 1), .ok (.newView 2), .ok .none] ∧
+    (exec Cfg.asWritten State.empty (witnessSetup ++ witnessMaskedInplaceScalar)).heap[0]? = some [15, 11, 17] ∧
+    (run Cfg.repaired State.empty (witnessSetup ++ witnessMaskedInplaceScalar)).2
+      = [.ok (.newView 0), .ok .none, .ok (.newView 1), .ok (.newView 2), .error .readOnly] := by
+  decide
+
+/-- FULL-STRENGTH CLAIM "every slice with step ≠ 0 is accepted" — what `extract_slice_indices` does instead:
+    forward slices always; backward slices unless the normalised start is -1. -/
+theorem slice_accepted_forward {n : Nat} (hn : (n : Int) ≤ PY_SSIZE_T_MAX) {a b c : Option Int}
+    (hpos : 0 < c.getD 1) : ∃ s, extractSliceIndices n (.slice a b c) (-1) 0 = .ok s :=
+  extract_slice_forward_ok hn hpos
+
+theorem slice_rejected_only_if {n : Nat} (hn : (n : Int) ≤ PY_SSIZE_T_MAX) {a b c : Option Int}
+    (hc : ∀ v, c = some v → -PY_SSIZE_T_MAX ≤ v) {e : Err}
+    (h : extractSliceIndices n (.slice a b c) (-1) 0 = .error e) :
+    (c = some 0 ∧ e = .stepZero) ∨
+    (e = .domainError ∧ c.getD 1 < 0 ∧ PyList.boundDown n a ((n : Int) - 1) = -1) :=
+  extract_slice_error hn hc h
+
+/-- **The full-strength slice claim is FALSE for the code AS IT WAS (`s < 0` test)**: `a[::-1]` on an empty array, and
+    `a[-7::-2]` on a 5-element array, are `[]` in Python and raise (`std::domain_error`) here.
+    (The `s < 0` test of `extract_slice_indices` rejects the legal start `-1` of an empty backward slice.) -/
+theorem slice_any_sign_false :
+    ¬ (∀ (n : Nat) (a b c : Option Int), c ≠ some 0 → (n : Int) ≤ PY_SSIZE_T_MAX →
+        ∃ s, extractSliceIndices n (.slice a b c) (-1) 0 = .ok s) := by
+  intro h
+  obtain ⟨s, hs⟩ := h 0 none none (some (-1)) (by decide) (by decide)
+  have hw : extractSliceIndices 0 (.slice none none (some (-1))) (-1) 0 = .error .domainError := by decide
+  rw [hw] at hs
+  cases hs
+
+theorem slice_any_sign_witnesses :
+    extractSliceIndices 0 (.slice none none (some (-1))) (-1) 0 = .error .domainError ∧
+    PyList.sliceIndices 0 none none (some (-1)) = some [] ∧
+    extractSliceIndices 5 (.slice (some (-7)) none (some (-2))) (-1) 0 = .error .domainError ∧
+    PyList.sliceIndices 5 (some (-7)) none (some (-2)) = some [] := by decide
+
+/-- `IntArray(0)[::-1]`: raises as written, an empty array in the repaired variant (and in Python) -/
+theorem slice_empty_backward_witness :
+    (run Cfg.asWritten State.empty witnessEmptyBackward).2.getLast? = some (.error .domainError) ∧
+    (run Cfg.repaired State.empty witnessEmptyBackward).2.getLast? = some (.ok (.newView 1)) := by decide
+
+/-- `ifelse` on a READ-ONLY array raises as soon as `choice` selects one of its elements: the loop body uses
+    the non-const `(*this)[i]`.  (Python-list semantics: reading never fails.) -/
+theorem ifelse_readonly_quirk :
+    (run Cfg.asWritten State.empty witnessIfelseReadOnly).2.getLast? = some (.error .readOnly) ∧
+    (run Cfg.asWritten State.empty [.alloc [1, 2], .makeReadOnly 0, .alloc [0, 0], .ifelseScalar 0 1 9]).2.getLast?
+      = some (.ok (.newView 2)) ∧
+    (run Cfg.repaired State.empty witnessIfelseReadOnly).2.getLast? = some (.ok (.newView 2)) := by decide
+
+/-- the former `ifelse` (non-const read) refined the list operation only for WRITABLE sources -/
+theorem ifelse_refines_nonconst_former {h : Heap} {v choice other : View} (w : v.WF (shape h))
+    (wc : choice.WF (shape h)) (wo : other.WF (shape h)) (hw : v.writable = true)
+    (hl1 : choice.length = v.length) (hl2 : other.length = v.length) :
+    ∃ h' f, ifelseVector h v choice other false = .ok (h', f) ∧
+      f.toList h' = PyList.ifelse (choice.toList h) (v.toList h) (other.toList h) :=
+  let ⟨h', f, a, b, _⟩ := ifelseVector_refines w wc wo (cr := false) (Or.inr hw) hl1 hl2
+  ⟨h', f, a, b⟩
+
+/-- as written, `FloatArray(a[mask])` carries the source's raw indices over a dense copy: element 0 of the
+    result addresses cell 1 of a 1-cell buffer — an out-of-bounds read; repaired: a dense copy. -/
+theorem convert_masked_oob_asWritten :
+    (run Cfg.asWritten State.empty witnessConvert).2.getLast? = some (.error .oob) ∧
+    (run Cfg.repaired State.empty witnessConvert).2.getLast? = some (.ok (.int 11)) := by decide
+
+/-- as written it holds for dense scalar arrays (IntArray, FloatArray, ...) -/
+theorem buffer_len_asWritten_scalar (t : ElemTy) (hd : t.dims = 1) (length : Nat) :
+    (getbuffer BufCfg.asWritten t length 1).consistent := by
+  simp [PyBuffer.consistent, getbuffer, numBytes, BufCfg.asWritten, apiShape, hd, prod]
+
+def v3f : ElemTy := ⟨4, 3, 2, 12, 'f'⟩
+
+/-- ... and is FALSE in general: `memoryview(V3fArray(5))` has shape (5,3), itemsize 4, and `len` 20 -/
+theorem buffer_len_asWritten_false :
+    ¬ (∀ (t : ElemTy) (length stride : Nat), (getbuffer BufCfg.asWritten t length stride).consistent) := by
+  intro h
+  have := h v3f 5 1
+  revert this
+  decide
+
+theorem buffer_len_asWritten_witness :
+    (getbuffer BufCfg.asWritten v3f 5 1).len = 20 ∧ (getbuffer BufCfg.asWritten v3f 5 1).shape = [5, 3] ∧
+    (getbuffer BufCfg.repaired v3f 5 1).len = 60 := by decide
 
 def intTy : ElemTy := ⟨4, 1, 1, 4, 'i'⟩
 
